@@ -22,7 +22,7 @@ from vf.props import c01
 MODULES = ["Model.Expr", "Model.Gen", "Model.Pretty", "Model.Engine", "Generated.C07", "Proofs.Pretty", "Properties.C07"]
 P = "SqlglotModel.Properties.C07."
 THEOREMS = [P + n for n in ["indent_ws_only", "sep_seg_ws_only", "wrap_ws_only", "expressions_ws_only", "expressions_empty_item_witness",
-                            "generated_sentinel_chain_ok", "generated_surgery_sites_audited", "athena_engine_model_matches_source", "generated_athena_ctas_engines_agree", "athena_unwrapped_only_variant_witness", "embed_before_paren_comment_independent", "embed_rfind_counterexample", "sentinel_absent_in_output", "sentinel_absent_in_output_old", "sentinel_lowercased_survives", "doc_render_ws_only", "sentinel_roundtrip",
+                            "generated_sentinel_chain_ok", "generated_surgery_sites_audited", "pretty_only_structural_branches_audited", "athena_engine_model_matches_source", "generated_athena_ctas_engines_agree", "athena_unwrapped_only_variant_witness", "embed_before_paren_comment_independent", "embed_rfind_counterexample", "sentinel_absent_in_output", "sentinel_absent_in_output_old", "sentinel_lowercased_survives", "doc_render_ws_only", "sentinel_roundtrip",
                             "sentinel_in_literal_changes_value", "sentinel_overlap_changes_value", "sanitize_comment_examples"]]
 SENT = "__SQLGLOT__LB__"
 
@@ -135,8 +135,97 @@ def surgery_sites(chk: Check) -> list:
     return sorted(out)
 
 
+WHITESPACE_HELPERS = {"generate", "sep", "seg", "indent", "wrap", "format_args", "expressions", "_replace_line_breaks", "too_wide", "__init__"}
+
+
+def pretty_branch_sites(chk: Check) -> list:
+    """(file, method, line) of every `if` / conditional expression whose test reads self.pretty OUTSIDE the whitespace helpers:
+    places where the rendering PATH, not only the whitespace, can depend on pretty"""
+    import ast
+    import glob
+    import os
+    from vf.core import REPO
+
+    files = sorted(glob.glob(os.path.join(REPO, "sqlglot", "generators", "*.py"))) + [os.path.join(REPO, "sqlglot", "generator.py"),
+                                                                                     os.path.join(REPO, "sqlglot", "dialects", "dialect.py")]
+    out = []
+    for f in files:
+        try:
+            tree = ast.parse(open(f, encoding="utf-8").read())
+        except Exception:  # noqa
+            continue
+        for fn in ast.walk(tree):
+            if not isinstance(fn, ast.FunctionDef) or fn.name in WHITESPACE_HELPERS:
+                continue
+            for n in ast.walk(fn):
+                if isinstance(n, (ast.If, ast.IfExp)) and any(
+                        isinstance(a, ast.Attribute) and a.attr == "pretty" and isinstance(a.value, ast.Name) and a.value.id in ("self", "generator")
+                        for a in ast.walk(n.test)):
+                    negated = any(isinstance(u, ast.UnaryOp) and isinstance(u.op, ast.Not) for u in ast.walk(n.test))
+                    body_line = n.body[0].lineno if isinstance(n, ast.If) and not negated else None
+                    out.append((os.path.relpath(f, REPO), fn.name, n.lineno, body_line))
+    return sorted(out)
+
+
+# one corpus statement per listed site, reaching its pretty-dependent line on every run (checked with a line tracer)
+PRETTY_SITE_CORPUS = {
+    "create_sql": [("CREATE TABLE t WITH (format='ORC') AS SELECT a FROM b", "presto"), ("CREATE TABLE t (a INT) WITH (format='ORC')", "presto")],
+    "datatype_sql": [("SELECT CAST(x AS STRUCT<a INT, b ARRAY<STRUCT<c INT, d TEXT>>>)", "bigquery")],
+    "properties_sql": [("CREATE TABLE t (a INT) COMMENT 'x' WITH (format='ORC')", "presto"), ("CREATE TABLE t (a INT) COMMENT='x' ENGINE=InnoDB", "mysql")],
+    "values_sql": [("SELECT a, b FROM (VALUES (1, 2), (3, 4)) AS t(a, b)", "mysql"), ("SELECT * FROM (VALUES (1, 2)) AS t", "redshift")],
+    "join_sql": [("SELECT * FROM a JOIN b ON a.x = b.x LEFT JOIN c USING (y)", "")],
+    "case_sql": [("SELECT CASE WHEN a_long_column_name > 10 THEN 'first long result' ELSE 'second long result' END FROM t", "")],
+    "connector_sql": [("SELECT 1 FROM t WHERE a_long_column_name = 1 AND b_long_column_name = 2 OR c_long_column_name = 3", "")],
+    "copy_sql": [("COPY INTO t FROM 's3://b/p' CREDENTIALS = (AWS_KEY_ID='k' AWS_SECRET_KEY='s') FILE_FORMAT = (TYPE = CSV)", "snowflake")],
+}
+
+
+def trace_pretty_sites(chk: Check, sites: list) -> None:
+    """run each site's corpus statements with pretty=True under a line tracer; evidence: which listed sites (test line and,
+    for `if self.pretty:` blocks, the first body line) were executed"""
+    import os
+    import sys
+    import sqlglot
+    from vf.core import REPO
+
+    want = {}
+    for rel, fn, line, body in sites:
+        want[(os.path.join(REPO, rel), line)] = (fn, "test")
+        if body:
+            want[(os.path.join(REPO, rel), body)] = (fn, "pretty-path")
+    hit = set()
+
+    def tracer(frame, event, arg):
+        if event == "line":
+            k = (frame.f_code.co_filename, frame.f_lineno)
+            if k in want:
+                hit.add(k)
+        return tracer
+
+    for fn, items in PRETTY_SITE_CORPUS.items():
+        for src, d in items:
+            try:
+                e = sqlglot.parse_one(src, dialect=d or None)
+            except Exception:  # noqa
+                continue
+            sys.settrace(tracer)
+            try:
+                e.sql(dialect=d or None, pretty=True, max_text_width=20)
+            except Exception:  # noqa
+                pass
+            finally:
+                sys.settrace(None)
+    reached = sorted({f"{want[k][0]}:{want[k][1]}" for k in hit})
+    missing = sorted({f"{v[0]}:{v[1]}" for k, v in want.items() if k not in hit})
+    chk.cov["pretty_branch_sites"] = {"listed": len(sites), "reached_by_corpus": reached, "not_reached": missing}
+    if missing:
+        chk.note("pretty-dependent sites not reached by the corpus: " + ", ".join(missing))
+
+
 def translate(chk: Check) -> str:
     chain = sentinel_chain(chk)
+    psites = pretty_branch_sites(chk)
+    trace_pretty_sites(chk, psites)
     chk.cov["sentinel_replace_chain"] = chain
     sites = surgery_sites(chk)
     chk.cov["string_surgery_sites"] = len(sites)
@@ -154,6 +243,9 @@ def translate(chk: Check) -> str:
             "/-- generator methods doing position-dependent string surgery on rendered text: (file, method, operation) -/\n"
             "def surgerySites : List (String × String × String) := [" + ", ".join(
                 "(" + ", ".join(json.dumps(x) for x in t) + ")" for t in sites) + "]\n"
+            "/-- methods whose rendering PATH branches on self.pretty (outside the whitespace helpers): (file, method) -/\n"
+            "def prettyBranchSites : List (String × String) := [" + ", ".join(
+                "(" + json.dumps(r) + ", " + json.dumps(f) + ")" for r, f in sorted({(r, f) for r, f, _, _ in psites})) + "]\n"
             "/-- athena: (shape name, shape, `_tokenize_as_hive` on the sample's tokens, `_generate_as_hive` on its parse) -/\n"
             "def athenaShapes : List (String × SqlglotModel.Engine.Shape × Bool × Bool) := [" + ", ".join(
                 f"({json.dumps(n)}, ⟨.{f}, .{k}, {bl(o)}, .{bd}, {bl(ns)}⟩, {bl(t)}, {bl(g)})" for n, f, k, o, bd, ns, t, g in shapes) + "]\n"
@@ -496,6 +588,13 @@ COMMENT_TEMPLATES = [
     "INSERT INTO t /* {c} */ VALUES (1 /* {c} */) /* {c} */",
     "ALTER TABLE t /* {c} */ ADD COLUMN c INT /* {c} */",
 ]
+VALUES_TEMPLATES = [
+    "SELECT a, b FROM (VALUES (1, 2), (3, 4)) AS t(a, b)", "SELECT * FROM (VALUES (1, 2), (3, 4)) AS t", "SELECT * FROM (VALUES (1, 'x')) AS t(a, b)",
+    "SELECT t.a FROM u JOIN (VALUES (1, 2), (3, 4)) AS t(a, b) ON u.a = t.a", "SELECT * FROM u CROSS JOIN (VALUES (1), (2)) AS t",
+    "SELECT a FROM (VALUES (1, 2)) AS t(a, b) WHERE b IN (SELECT c FROM (VALUES (3)) AS v(c))", "SELECT * FROM (VALUES (1, 2))",
+    "WITH c AS (SELECT * FROM (VALUES (1, 2), (3, 4)) AS t(a, b)) SELECT a FROM c", "INSERT INTO t SELECT * FROM (VALUES (1, 2)) AS v(a, b)",
+    "SELECT * FROM (VALUES (1, 2), (3, 4)) AS \"T x\"(\"a b\", c)",
+]
 # the same Query kinds with engine-neutral spelling, so that the DEFAULT output is readable by either engine and only the
 # option under test (identify / pretty) decides
 ENGINE_SIMPLE = ["CREATE TABLE foo AS (SELECT a FROM b)", "CREATE TABLE foo AS (SELECT a FROM b UNION SELECT c FROM d)",
@@ -606,6 +705,17 @@ def search(chk: Check, budget_s: float) -> None:
                     consider(src, d, dict(o))
     chk.cov["comment_structure_sweep"] = {"templates": len(COMMENT_TEMPLATES), "comment_texts": len(ctexts), "option_sets": len(csets),
                                           "wall_s": round(time.time() - t1, 1)}
+    # VALUES in FROM / JOIN with and without an alias column list x every dialect (dialects without VALUES-as-table rewrite it,
+    # some only under pretty), and the corpus statement of every pretty-dependent site; parse(pretty) vs parse(default)
+    popts = [{"pretty": True}, {"pretty": True, "max_text_width": 20, "pad": 0, "indent": 4}, {"pretty": True, "leading_comma": True, "max_text_width": 1}]
+    for src in VALUES_TEMPLATES:
+        for d in dialects:
+            for o in popts[:2] if chk.quick else popts:
+                consider(src, d, dict(o), None, "values")
+    for fn, items in PRETTY_SITE_CORPUS.items():
+        for src, d in items:
+            for o in popts:
+                consider(src, d, dict(o), None, "prettysite")
     # dialects with an engine / mode switch: the generator-side engine applies the options, the tokenizer-side engine re-reads
     # the output; every Query kind as CTAS / VIEW / INSERT body under the options that change spelling per engine
     msd = c01.mode_switch_dialects()
